@@ -589,8 +589,55 @@ for t in ('i32', 'f32', 'f64'):
 for t in ('f32', 'f64'):
     row('C11', '<%s as util::parse_number::ParseNumber>::parse_with_limits' % t, 'nan:' + t,
         _contains(M('is_nan', L('n')), 'NaN rejection'))
-row('C11', '<section::colors::Color as std::str::FromStr>::from_str', 'alpha=255',
-    _contains(C('Color::new', ANY(), ANY(), ANY(), K(255)), 'colour built as R,G,B with alpha 255'))
+def _alpha_255(ctx, hfn):
+    """a parsed colour is opaque: `Color::new(r, g, b, 255)`, or the array form -- `Color([_, _, _, 255])` where the
+    array is written afterwards only below index 3 (`iter_mut()..take(3)`, `a[0..=2] = ..`)"""
+    if find(ctx, hfn['body'], C('Color::new', ANY(), ANY(), ANY(), K(255))):
+        return True, '', None
+    ctors = []
+
+    def v(n, anc):
+        if n.get('k') == 'call' and n['f'].get('k') == 'path' and len(n.get('args', [])) == 1 and \
+                (n.get('ty') or '').endswith('colors::Color') and (n['f'].get('dk') in ('SelfCtor',) or 'Ctor' in (n['f'].get('dk') or '')):
+            ctors.append(n)
+    H.walk(hfn['body'], v)
+    if len(ctors) != 1:
+        return False, 'colour built as R,G,B with alpha 255 not found', None
+    arg = strip(ctors[0]['args'][0])
+    name = None
+    arr = arg
+    if isinstance(arg, dict) and arg.get('k') == 'local':
+        name = arg['name']
+        its = ctx.inits.get(name, [])
+        if len(its) != 1:
+            return False, 'the colour components have %d initialisers' % len(its), ctors[0].get('ln')
+        arr = strip(its[0])
+    if not (isinstance(arr, dict) and arr.get('k') == 'array' and len(arr.get('es', [])) == 4 and K(255).m(ctx, arr['es'][3])):
+        return False, 'the fourth colour component is not the constant 255', ctors[0].get('ln')
+    if name is None:
+        return True, '', ctors[0].get('ln')
+    bad = []
+
+    def uses(n, anc):
+        if n.get('k') == 'local' and n.get('name') == name and n is not arg:
+            par = anc[-1] if anc else {}
+            # a[i] = .. with a literal index below 3
+            if par.get('k') == 'index' and strip(par.get('i', {})).get('k') == 'lit' and int(strip(par['i'])['v']) < 3:
+                return
+            # channels.iter_mut() .. .take(3): only the first three are handed out mutably
+            if par.get('k') == 'mcall' and par.get('name') == 'iter_mut':
+                if any(a.get('k') == 'mcall' and a.get('name') == 'take' and a.get('args') and K(3).m(ctx, a['args'][0]) for a in anc):
+                    return
+            if par.get('k') == 'mcall' and par.get('name') in ('iter', 'len', 'as_slice') and strip(par.get('recv')) is n:
+                return
+            bad.append(n)
+    H.walk(hfn['body'], uses)
+    ok = not bad
+    return ok, '' if ok else 'the alpha component (index 3, initialised to 255) may be overwritten', bad[0].get('ln') if bad else None
+
+
+_alpha_255.positive = True
+row('C11', '<section::colors::Color as std::str::FromStr>::from_str', 'alpha=255', _alpha_255)
 
 # ------------------------------------------------------------------------------ C05
 SKIP = 'decode::DecodeBeatmap::should_skip_line'
